@@ -1,0 +1,26 @@
+//go:build verif
+
+// Contracts for package accesscontroller/orbitdb, read by /verif/govc. Comments only.
+package orbitdb
+
+// the role lists are read from the controller's key-value store; their derivation (getAuthorizations) is
+// not verified here: assumed to be a function of the controller state and the role.
+//@ spec func roleList(o Int, role Str) Slice<Str>
+//@ func (*orbitDBAccessController).GetAuthorizedByRole
+//@   trusted
+//@   ensures result1 == nil ==> result == roleList(o, role)
+//@   modifies nothing
+
+// CanAppend returns nil only for an entry whose identity id (or the wildcard) is in the write or admin list.
+//@ func (*orbitDBAccessController).CanAppend
+//@   props C03 C12
+//@   flag nilcalls
+//@   requires entry != nil && ref(entry) != 0 && ptr(entry, "entry.Entry").Identity != nil
+//@   requires p != nil
+//@   ghost id := ptr(entry, "entry.Entry").Identity.ID
+//@   ghost W := roleList(o, "write")
+//@   ghost A := roleList(o, "admin")
+//@   loop 1 invariant forall j Int :: 0 <= j && j < $i ==> access[j] != id && access[j] != "*"
+//@   ensures result == nil ==> (exists j Int :: 0 <= j && j < len(W) && (W[j] == id || W[j] == "*")) || (exists j Int :: 0 <= j && j < len(A) && (A[j] == id || A[j] == "*"))
+//@   ensures result == nil ==> verifyOK(p, ptr(entry, "entry.Entry").Identity)
+//@   modifies nothing
